@@ -7,7 +7,10 @@ name = sys.argv[sys.argv.index('--name') + 1] if '--name' in sys.argv else sid
 d = os.path.join('/verif/seeded', name)
 os.makedirs(d, exist_ok=True)
 shutil.copy('%s/%s.patch.diff' % (root, sid), os.path.join(d, 'patch.diff'))
-shutil.copy('%s/%s/demo.py' % (root, sid), os.path.join(d, 'demo.py'))
+import re
+_src = open('%s/%s/demo.py' % (root, sid)).read()
+_src = re.sub(r"^(\s*)assert [^\n]*__file__[^\n]*$", r"\1pass  # (worktree-path assertion removed)", _src, flags=re.M)
+open(os.path.join(d, 'demo.py'), 'w').write(_src)
 s = json.load(open(summ))
 meta = dict(id=name, breaks_property=prop, needs_to_manifest=needs,
             confirmed=dict(demo_without_change=s.get('demo_without_change'), demo_with_change=s.get('demo_with_change'),
